@@ -1567,7 +1567,7 @@ func TestVerif_C08(t *testing.T) {
 	// ---- Coq
 	var sb strings.Builder
 	sb.WriteString(coqCaseHeader)
-	sb.WriteString("From KM Require Import Base.Cases Model.Auth Model.Authz Model.AdminCache.\nOpen Scope N_scope.\n")
+	sb.WriteString("From KM Require Import Base.Cases Model.Auth Model.Authz Model.AdminCache Proofs.AuthzObs.\nOpen Scope N_scope.\n")
 	sb.WriteString(c08UTable())
 	sb.WriteString("Definition T (i : Z) (n : tname) (e : bool) : Z * tok := (i, {| tk_name := n; tk_enabled := e |}).\n")
 	sb.WriteString("Definition P (u w t : tokens) (a b c d e : bool) : profile := {| p_u2f := u; p_wa := w; p_totp := t; p_regchal := a; p_pending_totp := b; p_wa_session := c; p_bootstrap := d; p_registered := e |}.\n")
@@ -1612,6 +1612,25 @@ func TestVerif_C08(t *testing.T) {
 `)
 	sb.WriteString(fmt.Sprintf("Definition c08_ncases := %d%%N.\nPrint c08_ncases.\n", len(allCases)))
 	sb.WriteString("Definition c08_mismatches := Eval vm_compute in (" + c08ShardMismatches("bad_cell", cellShards) + ").\nPrint c08_mismatches.\n")
+	// round 2: the property's own predicate on the OBSERVATION of each mismatching cell (Proofs/AuthzObs.v
+	// cell_violating: a changed row that neither its owner nor an administrator who may act accounts for, or a
+	// success given to somebody who may not act on the effective target)
+	sb.WriteString(`Definition viol_cell (x : cell) : bool :=
+  let '(e, v, cr, post, o, tg, ix, nm, pr, pok, obs_resp, obs_store) := x in
+  let c := cfg_of e in
+  let r := {| r_cred := cr; r_post := post; r_op := o; r_target := tg; r_index := ix; r_name := nm; r_proof := pr;
+              r_adm := adm_of c (cred_user (resolve c cr)); r_dir_target := dir_of tg; r_params_ok := pok |} in
+  cell_violating c universe (fixture v) r obs_resp (apply_delta (fixture v) obs_store).
+`)
+	{
+		expr := "None"
+		for i := len(cellShards) - 1; i >= 0; i-- {
+			sh := cellShards[i]
+			expr = fmt.Sprintf("if %d <=? i then nth_error %s (i - %d) else %s", sh.offset, sh.name, sh.offset, expr)
+		}
+		sb.WriteString("Definition cell_at (i : nat) : option cell := (" + expr + ")%nat.\n")
+	}
+	sb.WriteString("Definition c08_violating := Eval vm_compute in filter (fun i => match cell_at i with Some x => viol_cell x | None => false end) c08_mismatches.\nPrint c08_violating.\n")
 	// of the cells that passed authentication, how many the model allows / denies (printed for the evidence)
 	traceShards := c08Shards(&sb, "trace_cases", "(bool * list (rkind * Z * Z * name * answer) * list bool)", traceCases, 400)
 	sb.WriteString(fmt.Sprintf("Definition c08_ntraces := %d%%N.\nPrint c08_ntraces.\n", len(traceCases)))
